@@ -7,10 +7,10 @@ pub fn esc(s: &str) -> String {
 }
 
 /// A one-decision model for the workspace/server alphabets: decision `v` returns the
-/// string `id`; decision `echo` returns its input `x`. With `builds == false` the model
+/// string `id`; knowledge model `echo` returns its (untyped) parameter `x`. With `builds == false` the model
 /// parses but its evaluator cannot be built (input data without type reference).
 pub fn alphabet_model(id: &str, ns: &str, name: &str, builds: bool) -> String {
-  let type_ref = if builds { " typeRef=\"Any\"" } else { "" };
+  let type_ref = if builds { " typeRef=\"string\"" } else { "" };
   format!(
     r##"<?xml version="1.0" encoding="UTF-8"?>
 <definitions xmlns="{dmn}" namespace="{ns}" name="{name}" id="{id}">
@@ -18,10 +18,9 @@ pub fn alphabet_model(id: &str, ns: &str, name: &str, builds: bool) -> String {
   <decision name="v" id="d_v"><variable name="v"/>
     <literalExpression><text>"{id}"</text></literalExpression>
   </decision>
-  <decision name="echo" id="d_echo"><variable name="echo"/>
-    <informationRequirement><requiredInput href="#i_x"/></informationRequirement>
-    <literalExpression><text>x</text></literalExpression>
-  </decision>
+  <businessKnowledgeModel name="echo" id="b_echo"><variable name="echo"/>
+    <encapsulatedLogic><formalParameter name="x"/><literalExpression><text>x</text></literalExpression></encapsulatedLogic>
+  </businessKnowledgeModel>
 </definitions>"##,
     dmn = DMN_NS,
     ns = esc(ns),
